@@ -36,6 +36,16 @@ def check(ctx):
             cases.append({"kind": "positions", "J": J, "rot": rot, "pad": pad, "grid": [J // 2, 2], "steps": [0.5, 1.0]})
     for win in ([3, 3], [2, 4], [5, 6]):
         cases.append({"kind": "window", "win": win})
+    if not ctx.quick:  # thorough: more array shapes, every ORDER of 4 explicit positions, more regularisation values and window shapes
+        for sh, wk, ak in itertools.product(([12, 10], [7, 7], [5, 16]), ("seeded", "fourier-zeros", "real"), ("seeded", "with-zeros", "own", "scaled-own")):
+            cases.append({"kind": "projection", "shape": sh, "wave": wk, "amp": ak})
+        for perm in itertools.permutations(range(4)):
+            for rot, pad, grid in itertools.product((None, 0.3, -1.2), (None, [4, 6]), (None, [2, 2])):
+                cases.append({"kind": "positions", "J": 4, "rot": rot, "pad": pad, "perm": list(perm), "grid": grid, "steps": None})
+        for pos, a, b, step, fix in itertools.product(("integer", "fractional", "wrapping"), (0.05, 0.6), (0.05, 0.6), (1.0, 0.25), (False, True)):
+            cases.append({"kind": "update", "pos": pos, "alpha": a, "beta": b, "step": step, "fix_probe": fix})
+        for win in ([1, 1], [4, 3], [5, 1], [2, 6]):
+            cases.append({"kind": "window", "win": win})
     ctx.workers = 8
     ctx.run(cases, "run_case", rule="one case per contract instance; non-trivial = all")
 
@@ -133,6 +143,8 @@ def run_case(c):
     if c["kind"] == "positions":
         J = c["J"]
         pts = np.array([[3.0, 1.0], [0.5, 2.5], [2.0, 0.0], [4.5, 4.0], [1.0, 3.5], [3.5, 0.5]])[:J]
+        if c.get("perm"):
+            pts = pts[list(c["perm"])]
         sampling = (0.25, 0.5)
         params = {"grid_scan_shape": tuple(c["grid"]) if c.get("grid") else None, "scan_step_sizes": tuple(c["steps"]) if c.get("steps") else None,
                   "rotation_angle": c["rot"], "object_px_padding": c["pad"]}
